@@ -1,1 +1,18 @@
-// harnesses for src/io_sys_unix_cancel (child module, cfg(kani) only)
+// child module of src/io/sys/unix/cancel.rs (cfg(kani) only)
+use super::*;
+use crate::verif_shim::np;
+
+/// Stub for `<CancelIoImpl as CancelIo>::cancel` in harnesses where the coroutine is never
+/// blocked in socket I/O: the io slot is empty (asserted), so the call returns None.
+pub unsafe fn io_cancel_none(c: &CancelIoImpl) -> Option<std::io::Result<()>> {
+    let v = np::quiet(|| c.0.take());
+    assert!(v.is_none(), "model: io cancel slot set in a harness without socket I/O");
+    std::mem::forget(v);
+    None
+}
+/// Stub for `<CancelIoImpl as CancelIo>::clear` under the same assumption
+pub fn io_clear_none(c: &CancelIoImpl) {
+    let v = np::quiet(|| c.0.take());
+    assert!(v.is_none(), "model: io cancel slot set in a harness without socket I/O");
+    std::mem::forget(v);
+}
